@@ -201,7 +201,7 @@ def judge(chk, trace_path, scripts, props, sd, name, extra_sig=None, clauses=Non
     return cnt
 
 
-def run_check(pid, tier, props, plan_list, rule=None, snap=False, extra=None, clauses=None):
+def run_check(pid, tier, props, plan_list, rule=None, snap=False, extra=None, clauses=None, alias=()):
     chk = vlib.Check(pid, tier)
     sd = vlib.scratch(pid.lower())
     binp = build_lbsim(sd)
@@ -226,6 +226,20 @@ def run_check(pid, tier, props, plan_list, rule=None, snap=False, extra=None, cl
         _t0 = _t.time()
         judge(chk, tp, scripts, set(props), sd, name, clauses=clauses)
         vlib.log("    replay+judge %.1fs" % (_t.time() - _t0))
+        if name in alias:
+            # the same walks with every added backend given the address of b1: names, not addresses, identify backends
+            import copy
+            sc2 = copy.deepcopy(scripts)
+            for s in sc2:
+                s["id"] = "alias-" + s["id"]
+                for st in s["steps"]:
+                    if st["a"] == "admin" and st["op"] == "add" and not st["addr"].startswith("http://["):
+                        st["addr"] = "http://b1.backend.test:80"
+            tp2 = replay(binp, sc2, sd, "alias-" + name)
+            chk.cov["traces_validated_against_impl"] += len(sc2)
+            for s in sc2:
+                chk.count_case([s["cfg"]["strategy"], len(s["steps"]), s["id"]])
+            judge(chk, tp2, sc2, set(props), sd, "alias-" + name, clauses=clauses)
         if scripts:
             chk.sample({"plan": name, "script": scripts[0]["id"], "strategy": scripts[0]["cfg"]["strategy"],
                         "steps": scripts[0]["steps"][:10], "events": segment(tp, scripts[0]["id"])[1:9]}, limit=6)
